@@ -222,22 +222,20 @@ mod proofs {
 #[cfg(all(test, not(kani)))]
 mod replay {
     use super::*;
+    fn dispatch(name: &str, r: &mut RSrc) -> bool {
+        match name {
+            "single_inter" => h_single::<RSrc, false>(r),
+            "single_intra" => h_single::<RSrc, true>(r),
+            "multi2" => h_multi::<RSrc, 2>(r),
+            "multi3" => h_multi::<RSrc, 3>(r),
+            "multi4" => h_multi::<RSrc, 4>(r),
+            "zigzag" => h_zigzag(r),
+            _ => return false,
+        }
+        true
+    }
     #[test]
     fn verif_replay() {
-        let name = std::env::var("VERIF_HARNESS").unwrap_or_default();
-        let mut r = RSrc::from_env();
-        match name.as_str() {
-            "single_inter" => h_single::<RSrc, false>(&mut r),
-            "single_intra" => h_single::<RSrc, true>(&mut r),
-            "multi2" => h_multi::<RSrc, 2>(&mut r),
-            "multi3" => h_multi::<RSrc, 3>(&mut r),
-            "multi4" => h_multi::<RSrc, 4>(&mut r),
-            "zigzag" => h_zigzag(&mut r),
-            _ => {
-                println!("REPLAY-UNKNOWN harness={}", name);
-                return;
-            }
-        }
-        r.report(&name);
+        verif_replay_main(dispatch)
     }
 }
